@@ -99,9 +99,16 @@ def rule_or_report(repo, col):
     # verdict chain: _validate_table -> validate_table exit status
     f = repo.func(VAL, '_validate_table')
     r = [n for n in body_walk(f) if isinstance(n, ast.Return)]
+    fass = local_assignments(f)
+
+    def res_(e, depth=0):
+        if isinstance(e, ast.Name) and depth < 4 and len(
+                fass.get(e.id, [])) == 1 and fass[e.id][0][0] is not None:
+            return res_(fass[e.id][0][0], depth + 1)
+        return e
     ok = len(r) == 1 and isinstance(r[0].value, ast.Tuple) and \
-        isinstance(r[0].value.elts[0], ast.Subscript) and \
-        const_str(r[0].value.elts[0].slice) == 'valid_table'
+        isinstance(res_(r[0].value.elts[0]), ast.Subscript) and \
+        const_str(res_(r[0].value.elts[0]).slice) == 'valid_table'
     col.check(ok, rule, VAL, '_validate_table', 'forward-verdict',
               r[0] if r else f, "returns result['valid_table'] first",
               'the verdict is not forwarded')
@@ -130,6 +137,22 @@ def rule_or_report(repo, col):
                             isinstance(c.args[0], ast.Constant) and \
                             c.args[0].value not in (0, None):
                         ok1 = True
+    if not (ok0 and ok1) and vname:
+        # evaluated form: the argument of sys.exit under both verdicts
+        from .flow import value_at
+        exits = [c for c in ast.walk(f) if isinstance(c, ast.Call) and
+                 call_name(c) == 'sys.exit' and c.args]
+        st = {}
+        for verdict in (True, False):
+            vals = set()
+            for c in exits:
+                v = value_at(f, c.args[0], {vname: verdict})
+                if v is not None:
+                    vals.add(v)
+            st[verdict] = vals
+        if st[True] and st[False]:
+            ok0 = st[True] == {0}
+            ok1 = 0 not in st[False] and None not in st[False]
     col.check(ok0 and ok1, rule, VAL, 'validate_table', 'exit-status', f,
               'exit 0 iff the verdict is valid, non-zero otherwise',
               'exit status does not follow the verdict')
@@ -465,8 +488,14 @@ def _aggregates(func, is_source, assigns):
 def _influences_verdict(func, mod, node):
     """The aggregate takes part in a condition (if/ifexp/assert/compare)."""
     cur = node
+    # parents within the function itself (the function may be a flattened
+    # view that is not part of the module tree)
+    lp = {}
+    for p_ in ast.walk(func):
+        for c_ in ast.iter_child_nodes(p_):
+            lp[id(c_)] = p_
     while cur is not None and cur is not func:
-        par = mod.parent.get(cur)
+        par = lp.get(id(cur))
         if isinstance(par, (ast.If, ast.IfExp, ast.While)) and \
                 cur is par.test:
             return True
@@ -499,6 +528,8 @@ def rule_or_aggr(repo, col):
         hit = None
         for q in jfuncs:
             f = repo.func(VAL, q)
+            from .normalize import flat_view as _fv
+            f = _fv(m.tree, VAL, f)
             tparam = 'table_json'
             recvars = _record_iter_vars(f, key, tparam)
             if not recvars:
@@ -1016,6 +1047,8 @@ def rule_records(repo, col):
     for q, key in (('TableValidator._valid_rows', 'rows'),
                    ('TableValidator._valid_columns', 'columns')):
         f = repo.func(VAL, q)
+        from .normalize import flat_view as _fv
+        f = _fv(repo.mod(VAL).tree, VAL, f)
         recvars = _record_iter_vars(f, key, 'table_json')
         other = 'columns' if key == 'rows' else 'rows'
         wrong = _record_iter_vars(f, other, 'table_json')
